@@ -1,4 +1,5 @@
 import HailVerif.Generated.BatchRoutes
+import HailVerif.Model.SessionCache
 /-!
 # C14 — Batch API access control
 
@@ -219,3 +220,120 @@ example : routeOK weakenedRoute = false := by decide
 example : mutate .commitUpdate ⟨true, false, false, false⟩ = { ok := true, changed := true } := by decide
 
 end HailVerif.C14
+
+/-! ## "authenticated, ACTIVE user" over time: the userinfo cache in front of every guard -/
+namespace HailVerif.C14.Session
+open HailVerif.SessionCache
+
+/-- invariant of the authenticator + TTL cache (the code: `sliding = false`) -/
+structure Inv (lifetime : Nat) (st : State) : Prop where
+  fresh : ∀ v e, st.entry = some (v, e) → e ≤ st.now + lifetime
+  stale : ∀ e b, st.entry = some (.active, e) → st.badSince = some b → e ≤ b + lifetime
+  bad : st.badSince = none ↔ st.svc = .active
+  past : ∀ b, st.badSince = some b → b ≤ st.now
+
+theorem inv_init (lifetime : Nat) : Inv lifetime init :=
+  ⟨by simp [init], by simp [init], by simp [init], by simp [init]⟩
+
+theorem inv_step (lifetime : Nat) (st : State) (op : Op) (h : Inv lifetime st) : Inv lifetime (step false lifetime st op).1 := by
+  cases op with
+  | advance dt =>
+    refine ⟨fun v e he => ?_, h.stale, h.bad, fun b hb => ?_⟩
+    · have := h.fresh v e he; simp only [step]; omega
+    · have := h.past b hb; simp only [step]; omega
+  | setSvc s =>
+    refine ⟨h.fresh, ?_, ?_, ?_⟩
+    · intro e b he hb
+      simp only [step] at he hb
+      cases hs : (s == Svc.active) with
+      | true => simp [hs] at hb
+      | false =>
+        simp only [hs, Bool.false_eq_true, ↓reduceIte] at hb
+        cases hbs : st.badSince with
+        | some b0 => rw [hbs] at hb; injection hb with hb; subst hb; exact h.stale e b0 he hbs
+        | none => rw [hbs] at hb; injection hb with hb; subst hb; exact h.fresh _ e he
+    · simp only [step]
+      cases s <;> cases hbs : st.badSince <;> simp
+    · intro b hb
+      simp only [step] at hb ⊢
+      cases hs : (s == Svc.active) with
+      | true => simp [hs] at hb
+      | false =>
+        simp only [hs, Bool.false_eq_true, ↓reduceIte] at hb
+        cases hbs : st.badSince with
+        | some b0 => rw [hbs] at hb; injection hb with hb; subst hb; exact h.past b0 hbs
+        | none => rw [hbs] at hb; injection hb with hb; subst hb; exact Nat.le_refl _
+  | request =>
+    simp only [step]
+    cases he : st.entry with
+    | none =>
+      simp only
+      refine ⟨fun v e hve => ?_, fun e b hve hb => ?_, h.bad, h.past⟩
+      · simp at hve; show e ≤ st.now + lifetime; omega
+      · simp at hve
+        have := h.bad.2 hve.1
+        rw [this] at hb; simp at hb
+    | some ve =>
+      obtain ⟨v, e⟩ := ve
+      by_cases hx : e ≤ st.now
+      · simp only [hx, ↓reduceIte]
+        refine ⟨fun v' e' hve => ?_, fun e' b hve hb => ?_, h.bad, h.past⟩
+        · simp at hve; show e' ≤ st.now + lifetime; omega
+        · simp at hve
+          have := h.bad.2 hve.1
+          rw [this] at hb; simp at hb
+      · simp only [hx, ↓reduceIte, Bool.false_eq_true]
+        exact ⟨fun v' e' hve => h.fresh v' e' (by rw [he]; exact hve), fun e' b hve hb => h.stale e' b (by rw [he]; exact hve) hb,
+          h.bad, h.past⟩
+
+/-- states reachable by any schedule of requests, clock advances and auth-service changes -/
+inductive Reachable (lifetime : Nat) : State → Prop where
+  | init : Reachable lifetime init
+  | step {st : State} (op : Op) : Reachable lifetime st → Reachable lifetime (step false lifetime st op).1
+
+theorem reachable_inv {lifetime : Nat} {st : State} (h : Reachable lifetime st) : Inv lifetime st := by
+  induction h with
+  | init => exact inv_init lifetime
+  | step op _ ih => exact inv_step lifetime _ op ih
+
+/-- STALENESS IS BOUNDED BY THE LIFETIME: whenever a request is let through (200), the auth service either says `active` right
+now, or stopped saying so LESS than one cache lifetime ago.  A request arriving `lifetime` or more after the account was
+deactivated / the session revoked is refused — no matter how often the session was used in between. -/
+theorem staleness_bounded {lifetime : Nat} {st : State} (hr : Reachable lifetime st)
+    (h : (step false lifetime st .request).2 = some 200) :
+    st.badSince = none ∨ ∃ b, st.badSince = some b ∧ st.now < b + lifetime := by
+  have hi := reachable_inv hr
+  simp only [step] at h
+  cases he : st.entry with
+  | none =>
+    simp only [he] at h
+    left
+    cases hs : st.svc <;> simp [hs, outcome] at h
+    exact hi.bad.2 hs
+  | some ve =>
+    obtain ⟨v, e⟩ := ve
+    simp only [he] at h
+    by_cases hx : e ≤ st.now
+    · simp only [hx, ↓reduceIte] at h
+      left
+      cases hs : st.svc <;> simp [hs, outcome] at h
+      exact hi.bad.2 hs
+    · simp only [hx, ↓reduceIte, Bool.false_eq_true] at h
+      cases v <;> simp [outcome] at h
+      cases hb : st.badSince with
+      | none => exact Or.inl rfl
+      | some b =>
+        right
+        refine ⟨b, rfl, ?_⟩
+        have := hi.stale e b he hb
+        omega
+
+/-- the excluded variant (a hit re-inserts the entry: sliding lifetime): used at t = 0, 8, 16; deactivated at t = 4: the
+request at t = 16 (12 after the deactivation, lifetime 10) is still let through; the code refuses it -/
+def schedule : List Op := [.request, .advance 4, .setSvc .inactive, .advance 4, .request, .advance 8, .request]
+example : (run true 10 init schedule).2 = [200, 200, 200] := by decide
+example : (run false 10 init schedule).2 = [200, 200, 403] := by decide
+-- boundary: exactly one lifetime after the load the entry has expired
+example : (run false 10 init [.request, .setSvc .revoked, .advance 9, .request, .advance 1, .request]).2 = [200, 200, 401] := by decide
+
+end HailVerif.C14.Session
